@@ -98,7 +98,7 @@ func HarnessC09() {
 		ln := zzvrt.OLen(r, "X")
 		zzvrt.Check("C09.default-applied", zzvrt.Implies(missing, ln == 2))
 		if ln == 2 {
-			zzvrt.Check("C09.default-applied", zzvrt.Implies(missing, zzvrt.And(zzvrt.OStr(r, "X/0") == "a", zzvrt.OStr(r, "X/1") == "b")))
+			zzvrt.Check("C09.default-applied", zzvrt.Implies(missing, zzvrt.And(zzvrt.OStr(r, "X/0") == ps.defArr[0], zzvrt.OStr(r, "X/1") == ps.defArr[1])))
 		}
 		zzvrt.Check("C09.present-value-wins", zzvrt.Implies(zzvrt.Not(missing), ln == zzvrt.DLen(d, "x")))
 	}
@@ -129,18 +129,70 @@ func zzAssumeDefaultValid(s *zzSpec) bool {
 
 // HarnessC09Siblings: two object schemas of the same shape that want the same Go type name
 // (definition names that normalise to one identifier, or equal titles under
-// --struct-name-from-title) and differ only in the default of their member: each position
-// keeps its own default.
+// --struct-name-from-title) and differ in exactly ONE keyword of their member v: a default
+// (C09), minItems (C07), minLength (C06), minimum (C05), required (C04) or the enum list (C08).
+// The name de-duplication by schema equality must keep them apart: each position keeps its
+// own default and enforces its own rule.
 func HarnessC09Siblings() {
-	type dflt struct {
-		typ  string
-		a, b interface{}
+	type variant struct {
+		owner, what string
+		mkA, mkB    func() (*schemas.Type, *zzSpec)
+		reqA, reqB  bool
+		defA, defB  interface{}
 	}
-	ds := []dflt{{"integer", 1.0, 2.0}, {"string", "x", "y"}, {"boolean", true, false}, {"integer", 3.0, 3.0}}
-	dk := ds[zzvrt.Choice(len(ds))]
-	mk := func(def interface{}, title string) *schemas.Type {
-		return &schemas.Type{Type: schemas.TypeList{"object"}, Title: title,
-			Properties: map[string]*schemas.Type{"v": {Type: schemas.TypeList{dk.typ}, Default: def}}}
+	num := func(typ string, def interface{}) func() (*schemas.Type, *zzSpec) {
+		return func() (*schemas.Type, *zzSpec) {
+			return &schemas.Type{Type: schemas.TypeList{typ}, Default: def}, nil
+		}
+	}
+	arr := func(minItems int) func() (*schemas.Type, *zzSpec) {
+		return func() (*schemas.Type, *zzSpec) {
+			return &schemas.Type{Type: schemas.TypeList{"array"}, MinItems: minItems, Items: &schemas.Type{Type: schemas.TypeList{"boolean"}}},
+				&zzSpec{kind: "array", minItems: minItems, items: &zzSpec{kind: "boolean"}}
+		}
+	}
+	str := func(minLen int) func() (*schemas.Type, *zzSpec) {
+		return func() (*schemas.Type, *zzSpec) {
+			return &schemas.Type{Type: schemas.TypeList{"string"}, MinLength: minLen}, &zzSpec{kind: "string", minLen: minLen}
+		}
+	}
+	intMin := func(m float64) func() (*schemas.Type, *zzSpec) {
+		return func() (*schemas.Type, *zzSpec) {
+			return &schemas.Type{Type: schemas.TypeList{"integer"}, Minimum: zzF(m)}, &zzSpec{kind: "integer", min: zzF(m)}
+		}
+	}
+	enum := func(vals ...string) func() (*schemas.Type, *zzSpec) {
+		return func() (*schemas.Type, *zzSpec) {
+			var e []interface{}
+			for _, v := range vals {
+				e = append(e, v)
+			}
+			return &schemas.Type{Type: schemas.TypeList{"string"}, Enum: e}, &zzSpec{kind: "enum-string", enumS: vals}
+		}
+	}
+	plain := func() (*schemas.Type, *zzSpec) {
+		return &schemas.Type{Type: schemas.TypeList{"integer"}}, &zzSpec{kind: "integer"}
+	}
+	vs := []variant{
+		{owner: "C09", what: "default", mkA: num("integer", 1.0), mkB: num("integer", 2.0), defA: 1.0, defB: 2.0},
+		{owner: "C09", what: "default", mkA: num("string", "x"), mkB: num("string", "y"), defA: "x", defB: "y"},
+		{owner: "C09", what: "default", mkA: num("boolean", true), mkB: num("boolean", false), defA: true, defB: false},
+		{owner: "C09", what: "default", mkA: num("integer", 3.0), mkB: num("integer", 3.0), defA: 3.0, defB: 3.0},
+		{owner: "C07", what: "minItems", mkA: arr(1), mkB: arr(2)},
+		{owner: "C06", what: "minLength", mkA: str(1), mkB: str(3)},
+		{owner: "C05", what: "minimum", mkA: intMin(1), mkB: intMin(5)},
+		{owner: "C04", what: "required", mkA: plain, mkB: plain, reqA: true, reqB: false},
+		{owner: "C08", what: "enum", mkA: enum("a", "b"), mkB: enum("a", "c")},
+	}
+	vk := vs[zzvrt.Choice(len(vs))]
+	ta, sa := vk.mkA()
+	tb, sb := vk.mkB()
+	mk := func(m *schemas.Type, req bool, title string) *schemas.Type {
+		o := &schemas.Type{Type: schemas.TypeList{"object"}, Title: title, Properties: map[string]*schemas.Type{"v": m}}
+		if req {
+			o.Required = []string{"v"}
+		}
+		return o
 	}
 	root := &schemas.Type{Type: schemas.TypeList{"object"}, Required: []string{"p", "q"}}
 	var defs schemas.Definitions
@@ -149,12 +201,12 @@ func HarnessC09Siblings() {
 	mode := ""
 	if zzvrt.Bool() {
 		mode = "colliding-definition-names"
-		defs = schemas.Definitions{"conf-a": mk(dk.a, ""), "conf_a": mk(dk.b, "")}
+		defs = schemas.Definitions{"conf-a": mk(ta, vk.reqA, ""), "conf_a": mk(tb, vk.reqB, "")}
 		root.Properties = map[string]*schemas.Type{"p": {Ref: "#/$defs/conf-a"}, "q": {Ref: "#/$defs/conf_a"}}
 	} else {
 		mode = "equal-titles"
 		cfg.StructNameFromTitle = true
-		root.Properties = map[string]*schemas.Type{"p": mk(dk.a, "Settings"), "q": mk(dk.b, "Settings")}
+		root.Properties = map[string]*schemas.Type{"p": mk(ta, vk.reqA, "Settings"), "q": mk(tb, vk.reqB, "Settings")}
 	}
 	sch := &schemas.Schema{ObjectAsType: (*schemas.ObjectAsType)(root), ID: "https://example.com/root", Definitions: defs}
 	g, err := New(cfg)
@@ -162,10 +214,10 @@ func HarnessC09Siblings() {
 		zzvrt.Unreachable("New failed")
 	}
 	zzvrt.Witness("schema", sch)
-	zzvrt.Note("mode=" + mode + " type=" + dk.typ)
+	zzvrt.Note("mode=" + mode + " differs-in=" + vk.what)
 	if err := g.addFile("root.json", sch); err != nil {
 		zzvrt.Note("generator error: " + err.Error())
-		zzvrt.Check("C09.siblings.valid-schema-generates", false)
+		zzvrt.Check(vk.owner+".siblings.valid-schema-generates", false)
 		return
 	}
 	src := string(g.Sources()["root.go"])
@@ -173,34 +225,50 @@ func HarnessC09Siblings() {
 	h := zzvrt.Stage2(src)
 	if !zzvrt.S2OK(h) {
 		zzvrt.Note(zzvrt.S2Errors(h))
-		zzvrt.Check("C09.siblings.emitted-code-compiles", false)
+		zzvrt.Check(vk.owner+".siblings.emitted-code-compiles", false)
 		return
 	}
 	d := zzvrt.NewDoc()
 	zzTypeCorrectObject(d)
 	zzvrt.Assume(zzvrt.And(zzvrt.DIs(d, "p", zzvrt.KObject), zzvrt.DIs(d, "q", zzvrt.KObject)))
-	for _, m := range []string{"p/v", "q/v"} {
-		zzvrt.Assume(zzvrt.Or(zzvrt.DIs(d, m, zzvrt.KAbsent), zzvrt.DIs(d, m, zzvrt.KNull)))
+	zzvrt.Cover("siblings:" + mode + "/" + vk.what)
+	if vk.what == "default" {
+		for _, m := range []string{"p/v", "q/v"} {
+			zzvrt.Assume(zzvrt.Or(zzvrt.DIs(d, m, zzvrt.KAbsent), zzvrt.DIs(d, m, zzvrt.KNull)))
+		}
+		r, accepted, ok := zzRunT("C09.siblings", h, g.getRootTypeName(sch, "root.json"), "json", d)
+		if !ok {
+			return
+		}
+		zzvrt.Check("C09.siblings.absent-or-null-accepted", accepted)
+		if !accepted {
+			return
+		}
+		same := func(path string, want interface{}) bool {
+			switch w := want.(type) {
+			case float64:
+				return zzvrt.OInt(r, path) == int64(w)
+			case string:
+				return zzvrt.OStr(r, path) == w
+			case bool:
+				return zzvrt.OBool(r, path) == w
+			}
+			return false
+		}
+		zzvrt.Check("C09.siblings.each-position-keeps-its-own-default", zzvrt.And(same("P/V", vk.defA), same("Q/V", vk.defB)))
+		return
 	}
-	r, accepted, ok := zzRunT("C09.siblings", h, g.getRootTypeName(sch, "root.json"), "json", d)
+	// rule variants: each position enforces ITS schema
+	n := zzvrt.Param("N", 2)
+	fa := zzMember(d, "p/v", sa, vk.reqA, n)
+	fb := zzMember(d, "q/v", sb, vk.reqB, n)
+	f := fa.and(fb)
+	zzvrt.Assume(zzvrt.Not(f.dontCare))
+	zzvrt.Assume(zzvrt.Iff(f.str, f.strBytes)) // outside the byte/rune length finding
+	_, accepted, ok := zzRunT(vk.owner+".siblings", h, g.getRootTypeName(sch, "root.json"), "json", d)
 	if !ok {
 		return
 	}
-	zzvrt.Cover("siblings:" + mode + "/" + dk.typ)
-	zzvrt.Check("C09.siblings.absent-or-null-accepted", accepted)
-	if !accepted {
-		return
-	}
-	same := func(path string, want interface{}) bool {
-		switch w := want.(type) {
-		case float64:
-			return zzvrt.OInt(r, path) == int64(w)
-		case string:
-			return zzvrt.OStr(r, path) == w
-		case bool:
-			return zzvrt.OBool(r, path) == w
-		}
-		return false
-	}
-	zzvrt.Check("C09.siblings.each-position-keeps-its-own-default", zzvrt.And(same("P/V", dk.a), same("Q/V", dk.b)))
+	zzvrt.Check(vk.owner+".siblings.same-named-types-keep-their-own-"+vk.what, zzvrt.Iff(accepted, f.all()))
+	zzvrt.Check("C10.siblings.one-type-per-distinct-schema", zzvrt.Iff(accepted, f.all()))
 }
